@@ -734,10 +734,11 @@ func (self *Node) reset() error {
 Please resolve this error in order to continue running the pipeline:`)
 			return err
 		}
-		// Remove all related files from journal directory.
+		// Remove all related files from journal directory.  The trailing
+		// dot keeps the files of e.g. STEP1 when STEP is being reset.
 		if files, err := util.Readdirnames(self.top.journalPath); err == nil {
 			base := strings.TrimPrefix(strings.TrimPrefix(self.call.GetFqid(),
-				self.top.fqname), ".")
+				self.top.fqname), ".") + "."
 			for _, file := range files {
 				if strings.HasPrefix(file, base) {
 					os.Remove(path.Join(self.top.journalPath, file))
